@@ -444,6 +444,7 @@ func RunCheck(ctx *Ctx, prepare func(*Ctx) (*Prepared, error), level string) int
 	var knownOrder []string
 	var violationLines []string
 	seenSig := map[string]bool{}
+	unconfirmed := map[string]int{}
 	for _, v := range vios {
 		if v.outcome == nil {
 			// inherit from a representative of the same site
@@ -458,6 +459,16 @@ func RunCheck(ctx *Ctx, prepare func(*Ctx) (*Prepared, error), level string) int
 			v.outcome = &CaseOutcome{Summary: "not replayed"}
 		}
 		if !v.outcome.Reproduced {
+			if (v.sig.Kind == "runaway" || v.sig.Kind == "alloc") && !strings.Contains(v.outcome.Summary, "failed") {
+				// The loop and allocation budgets are the engine's proxies for "out of
+				// proportion to the input" and are deliberately low; natively such an
+				// alarm only shows past a deadline, 64 KiB or a failed proportion
+				// assertion. One that stays below all of them (e.g. 255 iterations of
+				// a loop over zero-size elements) is reported as undecided, not as a
+				// violation and not as a disagreement between engine and code.
+				unconfirmed[v.sig.String()]++
+				continue
+			}
 			disagreements = append(disagreements, fmt.Sprintf("%s/%s %s: engine counterexample did not reproduce natively (%s) script=%v", v.job.Name, v.harness, v.sig, v.outcome.Summary, v.v.Script))
 			continue
 		}
@@ -511,6 +522,11 @@ func RunCheck(ctx *Ctx, prepare func(*Ctx) (*Prepared, error), level string) int
 	for _, m := range missingReach {
 		fmt.Printf("BROKEN vacuity: reach marker %s never witnessed\n", m)
 		broken = true
+	}
+	for k, n := range unconfirmed {
+		incon += n
+		inconReasons["resource-alarm-not-observable-natively"] += n
+		inconFuncs = append(inconFuncs, fmt.Sprintf("resource alarm below native observability x%d: %s", n, k))
 	}
 	if incon > 0 {
 		var ks []string
